@@ -486,6 +486,68 @@ class _SumCanon(ast.NodeTransformer):
         return node
 
 
+class _SliceCompose(ast.NodeTransformer):
+    """Views into one buffer written relative to a remainder (`rest = r[1 + n:]; x = rest[1:1 + rest[0]]`) become absolute:
+    V[a:][b:c] -> V[a + b:a + c], V[a:][b:] -> V[a + b:], V[a:][i] -> V[a + i]  for offsets that cannot be negative (non-negative constants, byte
+    values V[k], len(..), sums of those); bytes(V[a:b]) is V[a:b] (same content).  Equal for every buffer: Python clamps both forms alike."""
+
+    @staticmethod
+    def _nonneg(e):
+        if e is None:
+            return True
+        if isinstance(e, ast.Constant):
+            return isinstance(e.value, int) and not isinstance(e.value, bool) and e.value >= 0
+        if isinstance(e, ast.BinOp) and isinstance(e.op, ast.Add):
+            return _SliceCompose._nonneg(e.left) and _SliceCompose._nonneg(e.right)
+        if isinstance(e, ast.Subscript) and not isinstance(e.slice, ast.Slice):
+            return True          # an element of a bytes-like buffer
+        if isinstance(e, ast.Call) and isinstance(e.func, ast.Name) and e.func.id == "len":
+            return True
+        return False
+
+    @staticmethod
+    def _add(a, b):
+        if a is None:
+            return b
+        if b is None:
+            return a
+        return ast.BinOp(left=a, op=ast.Add(), right=b)
+
+    def visit_Call(self, node):
+        self.generic_visit(node)
+        if isinstance(node.func, ast.Name) and node.func.id in ("bytes", "bytearray") and len(node.args) == 1 and not node.keywords \
+                and isinstance(node.args[0], ast.Subscript) and isinstance(node.args[0].slice, ast.Slice):
+            return node.args[0]
+        return node
+
+    def visit_Subscript(self, node):
+        self.generic_visit(node)
+        v = node.value
+        if isinstance(v, ast.Subscript) and isinstance(v.slice, ast.Slice) and v.slice.upper is None and v.slice.step is None and self._nonneg(v.slice.lower):
+            a = v.slice.lower or ast.Constant(value=0)
+            if isinstance(node.slice, ast.Slice):
+                if node.slice.step is None and self._nonneg(node.slice.lower) and self._nonneg(node.slice.upper):
+                    lo = self._add(a, node.slice.lower)
+                    hi = self._add(a, node.slice.upper) if node.slice.upper is not None else None
+                    return ast.copy_location(ast.Subscript(value=v.value, slice=ast.Slice(lower=lo, upper=hi, step=None), ctx=node.ctx), node)
+            elif self._nonneg(node.slice):
+                return ast.copy_location(ast.Subscript(value=v.value, slice=self._add(a, node.slice), ctx=node.ctx), node)
+        return node
+
+
+def compose_slices(text):
+    """text with nested remainder-relative views made absolute and integer sums canonical"""
+    try:
+        e = ast.parse(text, mode="eval").body
+    except SyntaxError:
+        return text
+    try:
+        e = ast.fix_missing_locations(_SliceCompose().visit(e))
+        return canon_sums(ast.unparse(e))
+    except Exception:
+        return text
+
+
 def canon_sums(text):
     """canonical spelling of the integer sums (indices, slice bounds, lengths) and membership displays inside an expression text"""
     try:
